@@ -315,6 +315,18 @@ def two_views(case, arrays_value, inv, labels, rng):
             out.append(("query", "query-raises", "get_statuses/node_status(time=%r) raised %s: %s" % (q, type(e).__name__, e)))
             break
         want = {lab: status_at(h[0], h[1], q) for lab, h in zip(labels, hists)}
+        # the nodelist argument: any sub-collection of nodes, in any order
+        k = rng.randint(1, len(labels))
+        sub = rng.sample(labels, k)
+        try:
+            gsub = inv.get_statuses(sub if rng.random() < 0.5 else tuple(sub), q)
+        except Exception as e:
+            out.append(("query", "query-raises", "get_statuses(nodelist, time) raised %s: %s" % (type(e).__name__, e)))
+            break
+        if dict(gsub) != {x: want[x] for x in sub}:
+            out.append(("query", "status-query-nodelist", "time %r: get_statuses(%r) = %r, latest-change rule gives %r"
+                        % (q, sub, dict(gsub), {x: want[x] for x in sub})))
+            break
         if dict(got) != want or g1 != want[one]:
             out.append(("query", "status-query", "time %r: get_statuses %r, node_status(%r)=%r, latest-change rule gives %r"
                         % (q, dict(got), one, g1, want)))
